@@ -125,6 +125,32 @@ pub fn judge_c03(m: &MMsg, p: &Probe, builds: usize) -> Judge {
         if seen.insert(hash64(&bytes)) {
             judge_encoding(m, &bytes)?;
         }
+        // the same instance, modified after it was encoded once, must encode what it holds NOW
+        if seen.len() == 1 {
+            let mut msg = msg;
+            let mut m2 = m.clone();
+            m2.canon.request_id = m2.canon.request_id.wrapping_add(0x0101_0101);
+            m2.canon.code ^= 0x0003;
+            m2.canon.version ^= 0x0100;
+            msg.header_mut().request_id = m2.canon.request_id;
+            msg.header_mut().operation_or_status = m2.canon.code;
+            msg.header_mut().version = ipp::model::IppVersion(m2.canon.version);
+            let b2 = match catch(|| msg.to_bytes().to_vec()) {
+                Ok(b) => b,
+                Err(e) => return Err(Fail::new("C03/encode-panic", format!("to_bytes panicked: {e}"))),
+            };
+            judge_encoding(&m2, &b2).map_err(|f| Fail::new(format!("{}/after-header-change", f.sig), format!("after changing the header of an already encoded message: {}", f.msg)))?;
+            let extra = (b"zz-added-later".to_vec(), CValue::Integer(7));
+            msg.attributes_mut().add(ipp::model::DelimiterTag::OperationAttributes, ipp::attribute::IppAttribute::new("zz-added-later", ipp::value::IppValue::Integer(7)));
+            if let Some(g) = m2.canon.groups.iter_mut().find(|g| g.0 == 1) {
+                g.1.insert(extra.0, extra.1);
+            }
+            let b3 = match catch(|| msg.to_bytes().to_vec()) {
+                Ok(b) => b,
+                Err(e) => return Err(Fail::new("C03/encode-panic", format!("to_bytes panicked: {e}"))),
+            };
+            judge_encoding(&m2, &b3).map_err(|f| Fail::new(format!("{}/after-add", f.sig), format!("after adding an attribute to an already encoded message: {}", f.msg)))?;
+        }
     }
     if seen.len() > 1 {
         p.label("several attribute orders observed");
